@@ -42,3 +42,62 @@ pub fn now() -> SystemTime {
     let micros = CLOCK_MICROS.fetch_add(tick, Ordering::SeqCst);
     UNIX_EPOCH + Duration::from_micros(micros)
 }
+
+// ---------------------------------------------------------------------------------------------
+// Scheduling hooks: let a harness put the server's own background tasks under its scheduler and
+// give it decision points inside the write path. Inert (one relaxed load) unless switched on.
+
+use std::future::Future;
+use std::pin::Pin;
+use std::sync::{Arc, RwLock};
+use std::task::{Context, Poll};
+
+pub type BoxFut = Pin<Box<dyn Future<Output = ()> + Send + 'static>>;
+type SpawnWrapper = Arc<dyn Fn(&'static str, BoxFut) -> BoxFut + Send + Sync>;
+
+static SPAWN_WRAPPER: RwLock<Option<SpawnWrapper>> = RwLock::new(None);
+static POINTS_ON: AtomicBool = AtomicBool::new(false);
+
+/// Installs (or removes) the function that wraps every future the server hands to `tokio::spawn`
+/// at an instrumented site.
+pub fn set_spawn_wrapper(wrapper: Option<SpawnWrapper>) {
+    *SPAWN_WRAPPER.write().unwrap() = wrapper;
+}
+
+/// Called at instrumented `tokio::spawn` sites.
+pub fn wrap_spawn<F>(name: &'static str, future: F) -> BoxFut
+where
+    F: Future<Output = ()> + Send + 'static,
+{
+    let wrapper = SPAWN_WRAPPER.read().unwrap().clone();
+    match wrapper {
+        Some(wrapper) => wrapper(name, Box::pin(future)),
+        None => Box::pin(future),
+    }
+}
+
+/// Switches the `point()` hooks on or off.
+pub fn set_points(on: bool) {
+    POINTS_ON.store(on, Ordering::SeqCst);
+}
+
+struct YieldOnce(bool);
+
+impl Future for YieldOnce {
+    type Output = ();
+    fn poll(mut self: Pin<&mut Self>, cx: &mut Context<'_>) -> Poll<()> {
+        if self.0 {
+            return Poll::Ready(());
+        }
+        self.0 = true;
+        cx.waker().wake_by_ref();
+        Poll::Pending
+    }
+}
+
+/// A named decision point: returns Pending exactly once (waking itself) when points are on.
+pub async fn point(_label: &'static str) {
+    if POINTS_ON.load(Ordering::Relaxed) {
+        YieldOnce(false).await
+    }
+}
